@@ -1,5 +1,5 @@
 """Property table and the generic check driver."""
-import os, sys, time, json, collections
+import os, sys, time, json, collections, hashlib
 import vlib, k1, k1lib, gen
 
 ALL = gen.ALL_TRAITS
@@ -59,12 +59,13 @@ PROPS = {
         theorems=[],
         streams=[stream('clone', 'items:Clone,Copy', force=['Clone'], kinds=('struct', 'enum', 'union'))],
         k2=['clone'], k2_n=(80, 800),
+        direct=('c07', (1500, 15000)),
     ),
     'C08': dict(
         title='Default builds exactly the designated value',
         theorems=[],
         streams=[stream('default', 'items:Default,inherent', force=['Default'], kinds=('struct', 'enum', 'union'))],
-        k2=['default'], k2_n=(200, 2000),
+        k2=['default', 'union'], k2_ops=['default', 'new', 'union_default', 'compile', 'crash'], k2_n=(200, 2000),
     ),
     'C20': dict(
         title='Union impls are byte-wise and only generated behind an explicit unsafe',
@@ -78,7 +79,7 @@ PROPS = {
         theorems=[],
         streams=[stream('deref', 'items:Deref,DerefMut', force=['Deref'], kinds=('struct', 'enum')),
                  stream('derefmut', 'items:Deref,DerefMut', force=['Deref', 'DerefMut'], kinds=('struct', 'enum'), n=(800, 15000))],
-        k2=['deref'], k2_n=(80, 800),
+        k2=['deref'], k2_n=(150, 1200),
     ),
     'C10': dict(
         title='Into returns the designated field for every requested target type',
@@ -91,7 +92,7 @@ PROPS = {
         theorems=[],
         streams=[stream('all', 'whole', faults=0.05, n=(4000, 60000))],
         k2=['eq', 'hash', 'ord', 'ordlayout', 'debug', 'clone', 'default', 'deref', 'into', 'union', 'bounds', 'generics'],
-        k2_ops=['compile', 'crash'], k2_n=(60, 600),
+        k2_ops=['compile', 'crash'], k2_n=(80, 600),
     ),
     'C11': dict(
         title='Automatic bounds are exactly those the generated code needs',
@@ -127,7 +128,7 @@ PROPS = {
         title="Each trait's impl depends only on that trait's own attributes",
         theorems=[],
         streams=[stream('multi', 'whole', faults=0.0, n=(1500, 20000))],
-        direct=('c15', (500, 6000)),
+        direct=('c15', (1500, 10000)),
     ),
     'C16': dict(
         title='Expansion is deterministic',
@@ -138,7 +139,8 @@ PROPS = {
     'C17': dict(
         title='The macro is total: it never panics, aborts or hangs',
         theorems=['C17_no_panic', 'C17_no_panic_flat', 'C17_outcomes', 'C17_ok_nonempty', 'C17_inventory_matches'],
-        streams=[stream('malformed', 'outcome', faults=0.9, n=(3000, 50000), errkind=False)],
+        streams=[stream('malformed', 'outcome', faults=0.9, n=(3000, 50000), errkind=False),
+                 stream('malformed_union', 'outcome', kinds=('union',), faults=0.9, n=(1000, 15000), errkind=False)],
         direct=('c17', (3000, 60000)),
     ),
     'C18': dict(
@@ -213,6 +215,10 @@ def run_k1(st, seed, n, report, stats, samples):
             stats['err:' + str(cls[1])] += 1
         if c.fault:
             stats['fault:' + c.fault.split('@')[0]] += 1
+        if cls[0] == 'PANIC' and report.pid == 'C17':
+            # for C17 the input itself is the counterexample, whatever the model says
+            report.fail('c17:' + hashlib.sha256(c.rust().encode()).hexdigest()[:12],
+                        'the macro does not return on this input (%s): %s' % (real[i][0], real[i][1][:200]), dict(input=c.rust()), found_input=True)
         if v == 'diff':
             report.k1_diffs.append(dict(stream=st['name'], case=i, input=c.rust(), detail=d))
         if v == 'ood':
@@ -308,7 +314,7 @@ def run_check(pid, tier, seed):
                     dict(correspondence='K1 ' + d0['stream'], cases=report.k1_diffs[:5]), found_input=False)
     rc = report.finish()
     n_obl = len(obl) + len(P['streams']) + (1 if P.get('direct') else 0)
-    n_ok = sum(1 for o in obl if o['ok']) + sum(1 for st in P['streams'] if not [d for d in report.k1_diffs if d['stream'] == st['name']]) + (1 if P.get('direct') and not [v for v in report.violations if str(v[0]).startswith('c1')] else 0)
+    n_ok = sum(1 for o in obl if o['ok']) + sum(1 for st in P['streams'] if not [d for d in report.k1_diffs if d['stream'] == st['name']]) + (1 if P.get('direct') and not [v for v in report.violations if str(v[0]).startswith(P['direct'][0])] else 0)
     cov = dict(obligations=max(1, n_obl), discharged=n_ok,
                checker_cmd='./build.sh (coq_makefile + make: full .vo build) ; coqc _build/obl_%s.v (Print Assumptions) ; tools/k1.py view=%s' % (pid, ','.join(st['view'] for st in P['streams'])),
                trusted_base=vlib.TRUSTED_BASE,
